@@ -652,7 +652,7 @@ FINDINGS = []
 SUBS = [
     Sub("factory", lambda tier: factory_cases(tier), check_factory, quick=2200, thorough=8000),
     Sub("representation", lambda tier: representation_cases(tier), check_representation, quick=700, thorough=5000),
-    Sub("refusals", lambda tier: refusal_cases(tier), check_refusals, quick=300, thorough=1500),
+    Sub("refusals", lambda tier: refusal_cases(tier), check_refusals, quick=600, thorough=1500),
 ]
 
 RULE += ' Also: range= for fixed_width / pretty / integer / exponential (coverage of the range, tightness, integer half-open convention); malformed and valid specifications as narrow / unsigned integer arrays.'
